@@ -1776,9 +1776,22 @@ class Interp:
             elif lu == ru and lu.op in ("param", "enum", "const"):
                 eq = True
             elif tm.is_const(ru, None) and lu.op in (
-                    "call", "tuple", "list", "dict", "enum", "func", "cls",
+                    "tuple", "list", "dict", "enum", "func", "cls",
                     "fstr", "binop", "comp", "upd"):
                 eq = False
+            elif tm.is_const(ru, None) and lu.op == "call" and (
+                    lu.args[0].op == "cls" or (tm.callee_name(lu) or "")
+                    .startswith(("numpy.", "builtins.")) and
+                    tm.callee_name(lu) not in ("builtins.getattr",
+                                               "builtins.next",
+                                               "builtins.vars")):
+                # constructors, numpy / builtin functions: never None (what
+                # re.match, dict.get or a helper of the program return can be)
+                eq = False
+            elif tm.is_const(ru, None) and lu.op == "call" and \
+                    lu.args[0].op == "func" and self._never_none(
+                        lu.args[0].args[0]):
+                eq = False        # every exit of that function returns a value
             if eq is not None:
                 return const(eq if op in ("Eq", "Is") else not eq)
         if op in ("In", "NotIn") and ru.op in ("tuple", "list", "set") and \
@@ -1812,6 +1825,73 @@ class Interp:
             except Exception:
                 pass
         return T("cmp", op, l, r)
+
+    def _never_none(self, q: str) -> bool:
+        """every exit of the program function returns a value (syntactic:
+        no bare / None return, no falling off the end)"""
+        cache = self.prog.__dict__.setdefault("_never_none", {})
+        if q in cache:
+            return cache[q]
+        fn = self.prog.functions.get(q)
+        ok = False
+        if fn is not None and isinstance(fn.node, ast.FunctionDef):
+            def ends(body) -> bool:
+                if not body:
+                    return False
+                last = body[-1]
+                if isinstance(last, (ast.Return, ast.Raise)):
+                    return True
+                if isinstance(last, ast.If):
+                    return ends(last.body) and ends(last.orelse)
+                if isinstance(last, ast.Try):
+                    return ends(last.body) and all(
+                        ends(h.body) for h in last.handlers)
+                if isinstance(last, ast.With):
+                    return ends(last.body)
+                return False
+            rets = [n for n in ast.walk(fn.node) if isinstance(n, ast.Return)]
+            inner = [n for n in ast.walk(fn.node) if isinstance(
+                n, (ast.FunctionDef, ast.Lambda)) and n is not fn.node]
+            params = set(fn.params) | set(fn.kwonly)
+
+            def local_value(name: str) -> bool:
+                # a local that is only ever bound to non-None expressions
+                if name in params:
+                    return False
+                vals = []
+                for n in ast.walk(fn.node):
+                    if isinstance(n, ast.Assign) and any(
+                            isinstance(t, ast.Name) and t.id == name
+                            for t in n.targets):
+                        vals.append(n.value)
+                    elif isinstance(n, (ast.AugAssign, ast.AnnAssign)) and \
+                            isinstance(n.target, ast.Name) and \
+                            n.target.id == name and n.value is not None:
+                        vals.append(n.value)
+                    elif isinstance(n, (ast.For, ast.With, ast.Tuple)) and \
+                            any(isinstance(x, ast.Name) and x.id == name
+                                and isinstance(x.ctx, ast.Store)
+                                for x in ast.walk(n)) and not isinstance(
+                                    n, ast.Tuple):
+                        return False
+                return bool(vals) and all(
+                    isinstance(v, (ast.Call, ast.BinOp, ast.List, ast.Dict,
+                                   ast.Tuple, ast.Subscript, ast.ListComp,
+                                   ast.JoinedStr)) or (
+                        isinstance(v, ast.Constant) and v.value is not None)
+                    for v in vals)
+            ok = ends(fn.node.body) and not inner and all(
+                r.value is not None and not (
+                    isinstance(r.value, ast.Constant) and
+                    r.value.value is None) and not isinstance(
+                        r.value, (ast.IfExp, ast.BoolOp)) and (
+                    not isinstance(r.value, ast.Name) or
+                    local_value(r.value.id))
+                for r in rets) and not any(
+                isinstance(n, (ast.Yield, ast.YieldFrom))
+                for n in ast.walk(fn.node))
+        cache[q] = ok
+        return ok
 
     def ev_IfExp(self, n, frame, live):
         c = self.eval(n.test, frame, live)
